@@ -95,16 +95,42 @@ var parked = map[string]bool{
 // sync.WaitGroup.Wait / sync.Mutex.Lock (Go 1.23 reports those as semacquire); a semacquire inside
 // the runtime (world stop, GC start) is transient and does not count.
 func isParked(g G) bool {
-	if parked[g.State] {
-		return true
-	}
 	if g.State == "select" && strings.Contains(g.Stack, "database/sql.(*DB).conn(") {
 		// waiting for a free connection of a database/sql pool without a deadline (the library
 		// passes context.Background()): only another goroutine returning its connection ends it
 		return true
 	}
+	if foreignWait(g) {
+		// blocked on a channel or lock that belongs to a standard-library component with helper
+		// goroutines of its own (net/http's body reader waits for its connection's read loop to
+		// acknowledge EOF, for instance): those goroutines carry no marker, so "every relevant
+		// goroutine is parked" would not mean that nothing can move
+		return false
+	}
+	if parked[g.State] {
+		return true
+	}
 	if g.State == "semacquire" {
 		return strings.Contains(g.Stack, "sync.(*WaitGroup).Wait") || strings.Contains(g.Stack, "sync.(*Mutex).Lock") || strings.Contains(g.Stack, "sync.(*RWMutex).")
+	}
+	return false
+}
+
+// foreignWait reports whether the innermost frame that is not runtime / sync plumbing belongs to
+// net, net/http, os, io or database/sql.
+func foreignWait(g G) bool {
+	lines := strings.Split(g.Stack, "\n")
+	for i := 1; i < len(lines); i += 2 {
+		fn := lines[i]
+		if strings.HasPrefix(fn, "runtime.") || strings.HasPrefix(fn, "sync.") || strings.HasPrefix(fn, "internal/") || strings.HasPrefix(fn, "sync/") {
+			continue
+		}
+		for _, p := range []string{"net/", "net.", "os.", "os/", "io.", "database/sql", "crypto/", "bufio."} {
+			if strings.HasPrefix(fn, p) {
+				return true
+			}
+		}
+		return false
 	}
 	return false
 }
